@@ -22,11 +22,10 @@ Lemma c13_mod_vis v attr h name body sigs sf items :
     items = [IMod (h_attrs h) (h_vis h) name (user ++ [ITrait tr; IImpl im]);
              IUse [] (fa_vis a) ([TId name] ++ path_sep ++ [TId (fa_trait a)])] /\
     t_name tr = fa_trait a /\
-    t_vis tr = match fa_vis a with [] => [TId "pub"; TG Paren [TId "super"]] | x => x end.
+    t_vis tr = module_vis (fa_vis a).
 Proof.
   intros H. destruct (expand_mod_inv _ _ _ _ _ _ _ _ H) as (_ & bitems & fl & a & fns0 & tg & mode & ib & _ & Ha & _ & _ & _ & ->).
   exists a. do 3 eexists. repeat split; try reflexivity; try exact Ha.
-  cbn. destruct (fa_vis a); reflexivity.
 Qed.
 
 Lemma delegation_vis a v tg fns subs deleg d :
@@ -69,6 +68,5 @@ Proof.
   - unfold view_C13, good. cbn. discriminate.
   - destruct (expand_mod_inv _ _ _ _ _ _ _ _ H) as (_ & bitems & fl & a & fns0 & tg & mode & ib & _ & Ha & _ & _ & _ & ->).
     unfold view_C13, good, fn_attr_of. cbn [x_input x_attr]. rewrite parts_mod, Ha. cbn. intros _.
-    rewrite !toks_eqb_refl, String.eqb_refl.
-    destruct (fa_vis a); rewrite ?toks_eqb_refl; cbn; rewrite ?tt_eqb_refl, ?toks_eqb_refl, ?String.eqb_refl; auto.
+    rewrite ?toks_eqb_refl, ?String.eqb_refl. cbn. rewrite ?String.eqb_refl. auto.
 Qed.
